@@ -19,7 +19,7 @@ MANIFEST = {
              'is within the helper\'s tolerance and is reported with the cofactor. Reals, not floats.'),
 }
 EXPLANATION = 'Whole-step SVN terms of the TrainState bookkeeping fields compared with the kinematic reference formulas.'
-RULES = ['C12-1.time', 'C12-2.offset', 'C12-3.rear', 'C12-4.dist', 'C12-5.link', 'C12-6.init', 'C12-7.records']
+RULES = ['C12-1.time', 'C12-2.offset', 'C12-3.rear', 'C12-4.dist', 'C12-5.link', 'C12-6.init', 'C12-7.records', 'C12-8.linkpoints']
 ASSUMPTIONS = ['dt > 0', 'identities over the reals']
 
 SIMS = {
@@ -98,6 +98,9 @@ def run(ctx):
         px = RuleProxy(ctx, {'C19-6.drivers': 'C12-7.records', 'C19-2.order': 'C12-7.records'})
         C19.drivers(px)
         C19.order(px, engine(ctx))
+        # the front segment is looked up in the path's link points: their offsets are the cumulative link lengths (clause of C06-1)
+        from . import C06
+        C06.run(RuleProxy(ctx, {'C06-1.linkpoints': 'C12-8.linkpoints'}))
 
 
 def _deref_chain(t):
